@@ -37,7 +37,8 @@ Part (b): the comparison functions, transcribed header by header.  `α` is the c
 * `record/comparison.hpp`                                        : `Rec.eq`
 * `math/{vector,dim}/comparison.hpp`                             : `MVec.*`
 * `math/matrix/comparison.hpp`                                   : `equalV` on the row-major storage
-* `math/box/comparison.hpp`, `math/sphere/comparison.hpp`        : `Box.*`, `Sphere.*`
+* `math/box/comparison.hpp`, `math/box/object_impl.hpp` (`pos`, `size`, the `(pos, size)` constructor),
+  `math/sphere/comparison.hpp`                                    : `Box.*`, `Sphere.*`
 * `container/grid/comparison.hpp`                                : `Grid.*`
 * `container/tree/comparison.hpp` (`std::list ==` on the children): `Tree.eq`
 * `container/raw_vector/comparison.hpp`                          : `RawVec.*`
@@ -296,19 +297,26 @@ def ge (lt : α → α → Bool) (a b : Vector α n) : Bool := !(MVec.lt lt a b)
 def hash (hc : Nat → Nat → Nat) (h : α → Nat) (a : Vector α n) : Nat := rangeHash hc h a.toList
 end MVec
 
-/-! ## box (pos : vector, size : dim), sphere (origin : vector, radius) -/
+/-! ## box (stores `min_` and `max_`; `pos()` is `min_`, `size()` is `max_ - min_`), sphere (origin : vector, radius) -/
 structure Box (α : Type) (n : Nat) where
-  pos : Vector α n
-  size : Vector α n
+  min : Vector α n
+  max : Vector α n
 
 namespace Box
 variable {n : Nat}
+/-- `pos()`: `min_` -/
+def pos (b : Box α n) : Vector α n := b.min
+/-- `size()`: `to_dim(max_ - min_)`, component-wise with the `-` of the coordinate type -/
+def size (sub : α → α → α) (b : Box α n) : Vector α n := Vector.zipWith sub b.max b.min
+/-- constructor `object(vector pos, dim size)`: `min_(pos), max_(pos + size)` -/
+def ofPosSize (add : α → α → α) (p s : Vector α n) : Box α n := ⟨p, Vector.zipWith add p s⟩
 /-- `_a.pos() == _b.pos() && _a.size() == _b.size()` -/
-def eq (eq : α → α → Bool) (a b : Box α n) : Bool := MVec.eq eq a.pos b.pos && MVec.eq eq a.size b.size
-def ne (eq : α → α → Bool) (a b : Box α n) : Bool := !(Box.eq eq a b)
+def eq (sub : α → α → α) (eq : α → α → Bool) (a b : Box α n) : Bool :=
+  MVec.eq eq a.pos b.pos && MVec.eq eq (a.size sub) (b.size sub)
+def ne (sub : α → α → α) (eq : α → α → Bool) (a b : Box α n) : Bool := !(Box.eq sub eq a b)
 /-- `std::make_pair(pos, size) < std::make_pair(pos, size)` -/
-def lt (lt : α → α → Bool) (a b : Box α n) : Bool :=
-  pairLt (MVec.lt lt) (MVec.lt lt) (a.pos, a.size) (b.pos, b.size)
+def lt (sub : α → α → α) (lt : α → α → Bool) (a b : Box α n) : Bool :=
+  pairLt (MVec.lt lt) (MVec.lt lt) (a.pos, a.size sub) (b.pos, b.size sub)
 end Box
 
 structure Sphere (α : Type) (n : Nat) where
@@ -388,7 +396,20 @@ namespace Recursive
 def eq (eq : α → α → Bool) (a b : α) : Bool := eq a b
 def ne (eq : α → α → Bool) (a b : α) : Bool := !(Recursive.eq eq a b)
 end Recursive
+
+/-! ## iterator::range (`iterator/range_comparison.hpp`): a pair of iterators -/
+namespace IterRange
+/-- `_left.begin() == _right.begin() && _left.end() == _right.end()` -/
+def eq (eqI : α → α → Bool) (a b : α × α) : Bool := eqI a.1 b.1 && eqI a.2 b.2
+def ne (eqI : α → α → Bool) (a b : α × α) : Bool := !(IterRange.eq eqI a b)
+end IterRange
 end
+
+/-! ## unit (`unit_comparison.hpp`) -/
+namespace UnitT
+def eq (_a _b : Unit) : Bool := true
+def ne (_a _b : Unit) : Bool := false
+end UnitT
 
 /-! ## reference: holds the address of the referent -/
 structure Ref where
